@@ -24,6 +24,10 @@ func (p *Pubcomp) String() string {
 // NewPubcompPacket returns a Pubcomp instance by the given FixHeader and io.Reader
 func NewPubcompPacket(fh *FixHeader, version Version, r io.Reader) (*Pubcomp, error) {
 	p := &Pubcomp{FixHeader: fh, Version: version}
+	// the flags of the fixed header are reserved [MQTT-2.2.2-2]
+	if fh.Flags != FlagReserved {
+		return nil, codes.ErrMalformed
+	}
 	err := p.Unpack(r)
 	if err != nil {
 		return nil, err
